@@ -681,6 +681,13 @@ def run_session(spec, tools, res, stats, sess_rng):
                       no_failing_input=True)
         return
     hres = json.load(open(hout))
+    for k, hs in enumerate(hres["steps"]):
+        if hs.get("analysis_panic"):
+            # parser/analyser panic on an edit: C02/C03 territory, not a C16 observation; the session ends before that edit
+            stats["analysis_panics_outside_c16"].append({"session": name, "step": k})
+            spec = dict(spec)
+            spec["steps"] = spec["steps"][:k]
+            break
 
     # ---- LSP server
     ls = L.LS(tools.lsbin, root)
@@ -708,6 +715,7 @@ def run_session(spec, tools, res, stats, sess_rng):
         legend = (len(leg["tokenTypes"]), len(leg["tokenModifiers"]))
         stats["legend"] = legend
         opened = {}
+        died_in_edit = False
         model_in = []      # lines for the extracted model
         model_ctx = []     # what each model line is compared with
         for si, st in enumerate(spec["steps"]):
@@ -725,6 +733,15 @@ def run_session(spec, tools, res, stats, sess_rng):
                                                          "contentChanges": [{"text": t}]})
                 texts[p] = t
                 stats["edits"] += 1
+                try:
+                    ls.sync(timeout=600)
+                except L.ServerDied as ex:
+                    # the server died while analysing the edit, before any C16 request: C03/C15 territory
+                    stats["server_deaths_outside_c16"].append({"session": name, "step": si, "error": str(ex)[:200]})
+                    print("# note: vhdl_ls died while processing an edit (session %s, step %d); outside C16, session cut short" % (name, si))
+                    ls.kill()
+                    died_in_edit = True
+                    break
             for fi, f in enumerate(st["query"]):
                 p = abs_of(root, f)
                 if p not in texts:
@@ -863,7 +880,7 @@ def run_session(spec, tools, res, stats, sess_rng):
                             if not (pos_le(r0["start"], r0["end"]) and pos_in_doc(r0["start"], lines) and pos_in_doc(r0["end"], lines)):
                                 report("flat document symbol location outside the document", {"symbol": s})
                                 break
-        exit_code = ls.shutdown()
+        exit_code = 0 if died_in_edit else ls.shutdown()
         if exit_code not in (0, None):
             res.violation("vhdl_ls exited with code %s in session %s" % (exit_code, name),
                           {"kind": "input", "session": spec if len(json.dumps(spec)) < 200000 else name,
@@ -1096,7 +1113,8 @@ def main(tier, replay=None):
     stats = {"files": 0, "tokens": 0, "ranges": 0, "symbols": 0, "edits": 0, "absent": 0, "problems": 0, "kinds": {}, "range_kinds": {},
              "model_compared": 0, "spec_evaluated": 0, "docsym_units": 0, "model_not_nested": 0, "hier_ents": 0,
              "hier_hyp_failures": 0, "files_with_duplicate_positions": 0, "files_with_multiline_positions": 0,
-             "coq_sample": [], "samples": [], "sessions": []}
+             "coq_sample": [], "samples": [], "sessions": [],
+             "analysis_panics_outside_c16": [], "server_deaths_outside_c16": []}
     sd = seed()
 
     def go(spec, tag):
